@@ -114,8 +114,10 @@ def run_case(spec):
         unique = bool(spec.get("unique"))
         ukey = "unique-names" if spec.get("unique") == 1 else "unique-names+class-attribute-spelled-like-global"
         case.files, case.gen = pygen.generate(spec["pseed"], "binding", p_fstring=0.05, p_star_import=0.03, p_kwonly=0.1,
-                                              p_varargs=0.1, p_kwargs=0.15, p_kw_like_var=0.6, p_dunder_call=0.3, p_class_comp=0.4, p_multi_global=0.5,
-                                              unique_names=int(spec.get("unique") or 0))
+                                              p_varargs=0.1, p_kwargs=0.15, p_kw_like_var=0.6, p_dunder_call=0.3,
+                                              unique_names=int(spec.get("unique") or 0),
+                                              **({"p_class_comp": 0.4, "p_multi_global": 0.5, "p_member_named_like_module": 0.5}
+                                                 if spec.get("unique") else {}))
         os.makedirs(case.root)
         pyrun.write_project(case.root, case.files)
         case.baseline = pyrun.behaviour(case.root, entries=("import_all.py",))
@@ -183,6 +185,7 @@ def run_case(spec):
             kwarg_offsets = set()       # offsets of keyword-argument names at calls
             super_kwarg_offsets = set()
             var_callee_kwarg_offsets = set()
+            call_hosts = []
             try:
                 for n in _ast.walk(_ast.parse(text)):
                     if isinstance(n, _ast.Call) and isinstance(n.func, _ast.Name) and n.func.id not in def_names:
@@ -196,6 +199,8 @@ def run_case(spec):
                             if kw_.arg:
                                 super_kwarg_offsets.add(starts[kw_.lineno - 1] + len(
                                     lines[kw_.lineno - 1].encode("utf-8")[:kw_.col_offset].decode("utf-8", "ignore")))
+                    if isinstance(n, (_ast.FunctionDef, _ast.AsyncFunctionDef)) and n.name == "__call__":
+                        call_hosts.append((n.lineno, n.end_lineno))
                     if isinstance(n, _ast.keyword) and n.arg:
                         kwarg_offsets.add(starts[n.lineno - 1] + len(lines[n.lineno - 1].encode("utf-8")[:n.col_offset].decode("utf-8", "ignore")))
                     if isinstance(n, (_ast.FunctionDef, _ast.AsyncFunctionDef)) and (
@@ -209,6 +214,10 @@ def run_case(spec):
                 qline = text.count("\n", 0, offset) + 1
                 if offset in var_callee_kwarg_offsets:
                     label = "keyword-argument-of-a-call-through-a-variable"
+                elif any(lo <= qline <= hi for lo, hi in call_hosts):
+                    # witnesses: self.attr / self.method(kw=...) inside __call__ of a class whose instances are
+                    # called elsewhere give an empty answer
+                    label = "inside-a-__call__-method"
                 elif unique:
                     if old.startswith("__") and old.endswith("__"):
                         label = "dunder-name"
